@@ -7,6 +7,14 @@ let n_of_int n = if n = 0 then N0 else Npos (pos_of_int n)
 let rec int_of_pos = function XH -> 1 | XO p -> 2 * int_of_pos p | XI p -> 2 * int_of_pos p + 1
 let int_of_n = function N0 -> 0 | Npos p -> int_of_pos p
 let z_of_int n = if n = 0 then Z0 else if n > 0 then Zpos (pos_of_int n) else Zneg (pos_of_int (-n))
+let rec pos_of_int64 (n : int64) =
+  if n = 1L then XH
+  else if Int64.logand n 1L = 1L then XI (pos_of_int64 (Int64.shift_right_logical n 1))
+  else XO (pos_of_int64 (Int64.shift_right_logical n 1))
+(* decimal string in the i64 range *)
+let z_of_string s =
+  let n = Int64.of_string s in
+  if n = 0L then Z0 else if n > 0L then Zpos (pos_of_int64 n) else Zneg (pos_of_int64 (Int64.neg n))
 
 let unhex s =
   if s = "-" then [] else begin
@@ -32,6 +40,8 @@ let report id nlink_one check x o =
   let after = if check then x else bytes_after x o in
   Printf.printf "%s %s %s\n" id cls (hex after)
 
+let prof = if Array.length Sys.argv > 2 && Sys.argv.(2) = "release" then Release else Debug
+
 let () =
   let ic = open_in Sys.argv.(1) in
   (try
@@ -39,7 +49,7 @@ let () =
       let line = input_line ic in
       match String.split_on_char ' ' (String.trim line) with
       | id :: handler :: epoch :: check :: nlink :: data :: _rest ->
-        let epoch = if epoch = "-" then None else Some (z_of_int (int_of_string epoch)) in
+        let epoch = if epoch = "-" then None else Some (z_of_string epoch) in
         let check = (check = "1") in
         let nlink_one = (nlink = "1") in
         let x = unhex data in
@@ -48,6 +58,7 @@ let () =
            (match gzip_init epoch with
             | None -> Printf.printf "%s InitFail %s\n" id (hex x)
             | Some e -> report id nlink_one check x (gzip_process e x))
+         | "ar" -> report id nlink_one check x (ar_process epoch x)
          | _ -> Printf.printf "%s NoModel -\n" id)
       | _ -> ()
     done
